@@ -267,17 +267,17 @@ func partMenu(k ref.Kind, l geom.Layout) []*ref.G {
 	var out []*ref.G
 	switch k {
 	case ref.Polygon:
-		for i, n := range []int{0, 1, 2, 3} {
+		for i, n := range []int{0, 1, 2, 3, 5} {
 			out = append(out, ref.NewLine(ref.LinearRing, l, n, ref.CounterFrom(float64(10*(i+1)))))
 		}
 	case ref.MultiLineString:
-		for i, n := range []int{0, 1, 2, 3} {
+		for i, n := range []int{0, 1, 2, 3, 4} {
 			out = append(out, ref.NewLine(ref.LineString, l, n, ref.CounterFrom(float64(10*(i+1)))))
 		}
 	case ref.MultiPoint:
 		out = append(out, ref.NewPoint(l, false, ref.Counter()), ref.NewPoint(l, true, ref.CounterFrom(10)), ref.NewPoint(l, true, ref.CounterFrom(20)))
 	case ref.MultiPolygon:
-		for i, sizes := range [][]int{{}, {0}, {1}, {2, 1}, {0, 2}, {2, 0}} {
+		for i, sizes := range [][]int{{}, {0}, {1}, {2, 1}, {0, 2}, {5, 0, 4}} {
 			out = append(out, ref.NewParts(ref.Polygon, l, sizes, ref.CounterFrom(float64(10*(i+1)))))
 		}
 	}
